@@ -115,6 +115,12 @@ func (c *Ctx) CompareParse(cases []PCase, flags int, modelMax int, extra func(pc
 		if pc.ND {
 			key = append(key, 1)
 		}
+		sig := func(x string) string {
+			if c.SigHook != nil {
+				return c.SigHook(pc.Doc, x)
+			}
+			return x
+		}
 		cs := func(more map[string]interface{}) map[string]interface{} {
 			m := map[string]interface{}{"doc_hex": fmt.Sprintf("%x", pc.Doc), "nd": pc.ND, "stream": pc.Stream, "note": pc.Note,
 				"doc_text": printable(pc.Doc)}
@@ -134,13 +140,13 @@ func (c *Ctx) CompareParse(cases []PCase, flags int, modelMax int, extra func(pc
 			specOK := strings.HasPrefix(spec, "ok ")
 			for _, o := range outs {
 				if flags&ChkVerdict != 0 && specOK == o.out.Err {
-					c.Violate("verdict", fmt.Sprintf("spec says %v, implementation accepted=%v", specOK, !o.out.Err), "verdict",
+					c.Violate("verdict", fmt.Sprintf("spec says %v, implementation accepted=%v", specOK, !o.out.Err), sig("verdict"),
 						cs(map[string]interface{}{"kernel": kname(o.avx512), "copy": o.copy, "spec": trunc(spec, 200)}))
 					break
 				}
 				if flags&ChkDump != 0 && specOK && !o.out.Err {
 					if o.dumpErr != "" || "ok "+o.dump != specDumpNorm(spec, pc.ND) {
-						c.Violate("document", "document exposed by the API differs from the specification's", "document",
+						c.Violate("document", "document exposed by the API differs from the specification's", sig("document"),
 							cs(map[string]interface{}{"kernel": kname(o.avx512), "copy": o.copy, "spec": trunc(spec, 400), "impl": trunc(o.dump, 400), "err": o.dumpErr}))
 						break
 					}
@@ -262,7 +268,14 @@ func (c *Ctx) modelDisagree(pc *PCase, o cfgOut, impl, model, spec string, cs fu
 	}
 	info := cs(map[string]interface{}{"kernel": kname(o.avx512), "copy": o.copy, "impl": trunc(impl, 600), "model": trunc(model, 600), "spec": trunc(spec, 200)})
 	if concrete {
-		c.Violate("model-vs-impl", "implementation departs from model and from the specification", "model-impl-concrete", info)
+		sg := "document"
+		if c.SigHook != nil {
+			sg = c.SigHook(pc.Doc, sg)
+		}
+		if sg == "document" {
+			sg = "model-impl-concrete"
+		}
+		c.Violate("model-vs-impl", "implementation departs from model and from the specification", sg, info)
 		return
 	}
 	for _, k := range c.Known {
